@@ -48,4 +48,6 @@ ScalarStmts ==
      t \in BOOLEAN, ex \in BOOLEAN, ns \in {"", "ns"}, al \in BOOLEAN, iv \in MCIntervals, siv \in {<<0, 0>>, <<10, 0>>},
      ra \in {0, 6}, au \in BOOLEAN, g \in {<<>>, <<"host", "dc">>}, li \in {0, 20}}
 MCStmts == ClauseStmts \cup ScalarStmts
+\* mode "calls": texts as token sequences (one a prefix of another, one empty, two of equal length)
+MCTexts == {<<"a", "b">>, <<"a">>, <<"c", "d">>, <<>>}
 =============================================================================
